@@ -4,6 +4,7 @@ import (
 	"crypto"
 	"fmt"
 	"os"
+	"regexp"
 	"strings"
 	"sync"
 
@@ -85,6 +86,24 @@ func siteClass(e xmlgen.Edit) string {
 		return "outside-root"
 	}
 	return "inside-root"
+}
+
+// siteKeyed: re-serialisation kinds whose known rejections are tied to
+// particular places of the document (moving one particular declaration, one
+// particular attribute), so that the same kind of edit failing elsewhere is a
+// different finding. A redundant redeclaration fails on every element alike.
+var siteKeyed = map[string]bool{"nsdecl-hoist": true, "attr-ws-literal": true}
+
+var siteIndex = regexp.MustCompile(`\[\d+\]`)
+
+// sitePath: the element (and attribute) an edit touches, without sibling
+// indices: what a known finding about a rejected re-serialisation is tied to.
+func sitePath(e xmlgen.Edit) string {
+	f := strings.Fields(e.Site)
+	if len(f) == 0 {
+		return "-"
+	}
+	return siteIndex.ReplaceAllString(f[0], "")
 }
 
 func (d *signedDoc) relicVerify(xml []byte) error {
@@ -234,7 +253,11 @@ func partB(pool *jvmPool) {
 			run.Outcome(fmt.Sprintf("meta:%s:%s:%s", reser, cls, verdict))
 			switch {
 			case e.Reser && same && rerr != nil:
-				report(fmt.Sprintf("meta-%s:preserving-rejected:%s", d.kind, e.Kind),
+				key := fmt.Sprintf("meta-%s:preserving-rejected:%s", d.kind, e.Kind)
+				if siteKeyed[e.Kind] {
+					key += ":" + sitePath(e)
+				}
+				report(key,
 					fmt.Sprintf("a re-serialisation that leaves every signed canonical form unchanged (%s, %s) makes relic verify fail: %s [%s]", e.Kind, e.Site, rerr, d.label), len(e.Site), replay())
 			case !same && rerr == nil:
 				report(fmt.Sprintf("meta-%s:changing-accepted:%s:%s", d.kind, e.Kind, siteClass(e)),
